@@ -86,10 +86,10 @@ TEXT = {
         "level_note": _COMMON_NOTE + " uom quantities are opaque in the proof (comparison and arithmetic are uninterpreted functions; three IEEE facts are axioms: comparison is antisymmetric, None only on NaN, |x| is NaN only if x is). Consequently the numeric clauses of the statement -- radius within the tabulated range, non-increasing, < 0.5 mm per 8 ns, knots reproduced to 1e-12, correction in [0, max] -- are NOT proved: they are measured by the bounded native check c18_grid on all 92 shipped tables (every knot, +-1 ulp, midpoints, every slice boundary +-1 ulp, both signs: 2.3 million lookups), labelled bounded. The step clause fails on the shipped numbers at 135 listed knot intervals (known finding).",
     },
     "C19": {
-        "technique": "Verus contract on the scan-step statements cut out of both binaries",
+        "technique": "Verus contracts on the scan-step statements cut out of both binaries and on the decision part of sort_run_files; bounded native and end-to-end runs",
         "design_ref": "DESIGN.md §4 C19",
-        "level_text": "Only the time arithmetic is decided: the four statements of the scan closure (both binaries) are proved to add the 32-bit-wrapped difference to the previous decodable event, 0 for the first and for undecodable events.",
-        "level_note": _COMMON_NOTE + " Bounded stand-ins (not proofs): c19_sort runs sort_run_files on every (run, timestamp) assignment to <=4 files in every order; c19_csv runs the real alpha-g-trg-scalers and alpha-g-vertices on synthetic MIDAS files (8 timestamp scenarios incl. undecodable events, 32-bit wrap, gaps >= 2^31; 1 and 2 files in both command-line orders) and checks rows, order and trg_time. NOT decided: thread-count independence, vertex/scaler column contents beyond trg_time. cumulative < 2^63 assumed.",
+        "level_text": "Two things are decided. (1) The time arithmetic: the four statements of the scan closure (both binaries) are proved to add the 32-bit-wrapped difference to the previous decodable event, 0 for the first and for undecodable events. (2) The file-order decisions of sort_run_files, for every number of files, once the (run number, initial timestamp) of each file has been read: files of different runs are refused, two files with the same initial timestamp are refused wherever they stand in the argument list, and otherwise the result is a permutation of the arguments in strictly increasing order of initial timestamp with the common run number.",
+        "level_note": _COMMON_NOTE + " sort_unstable_by_key is an assumed leaf (permutation, sorted by the key); paths are opaque; reading the 12 header bytes of each file (std::fs, lz4, extension dispatch) is not under contract. Bounded stand-ins (not proofs): c19_sort runs sort_run_files on every (run, timestamp) assignment to <=4 files in every order; c19_csv runs the real alpha-g-trg-scalers and alpha-g-vertices on synthetic MIDAS files (8 timestamp scenarios incl. undecodable events, 32-bit wrap, gaps >= 2^31; 1 and 2 files in both command-line orders) and checks rows, order and trg_time. NOT decided: thread-count independence, vertex/scaler column contents beyond trg_time. cumulative < 2^63 assumed.",
     },
     "C20": {
         "technique": "Verus contract on the real chronobox_time + hardware-clock-model lemmas; bounded Kani check of the extracted row-split expression",
